@@ -410,6 +410,42 @@ def rule_fixpoints(ctx, rep, config="c-lib"):
                     rep.violation("R10", key, "a loop of %s is left by a test that does not depend on the loop's own element (nothing in the condition changes from one "
                                   "iteration to the next): the loop examines the wrong element -- e.g. the enclosing loop's -- instead of each of its own" % fn,
                                   where=t.where(), witness=[t.where()])
+    # every update of a set inside a fixpoint loop reports into the change flag
+    nupd = 0
+    for fn in FUNCS:
+        f = p.fn(fn)
+        for L in f.loops():
+            for bn in L["body"]:
+                for c_ in f.bmap[bn].insts:
+                    if not (c_.is_call() and c_.callee in ("term_set_or", "term_set_up")):
+                        continue
+                    if any(bn in L2["body"] and len(L2["body"]) < len(L["body"]) for L2 in f.loops()):
+                        continue   # counted for the innermost loop only
+                    tp = loaded_from(f, c_.args[0])
+                    if tp is None or not (tp.last_field() or "").endswith((".first", ".follow")):
+                        continue   # a scratch set: the caller compares the result itself
+                    nupd += 1
+                    n += 1
+                    key = "%s/update-reported#%d" % (fn, nupd)
+                    used = False
+                    work, seen = [c_.id], set()
+                    while work:
+                        x = work.pop()
+                        if x in seen:
+                            continue
+                        seen.add(x)
+                        for u in f.uses().get(x, []):
+                            if u.op in ("or", "phi", "zext", "trunc", "icmp", "select"):
+                                if "chang" in (u.d.get("var") or ""):
+                                    used = True
+                                work.append(u.id)
+                            elif u.op in ("br", "store"):
+                                used = True
+                    if used:
+                        rep.ok("R10", key, nontrivial=True)
+                    else:
+                        rep.violation("R10", key, "%s updates a set inside the fixpoint loop of %s and drops the `changed' result: the iteration can stop while this update "
+                                      "still propagates (FIRST / FOLLOW sets too small, valid items pruned at lookahead 1)" % (c_.callee, fn), where=c_.where(), witness=[c_.where()])
     # "did the scan run to the end?": the test after a loop with a break compares the loop's own counter with the loop's bound
     ncomp = 0
     for fn in FUNCS:
